@@ -145,26 +145,31 @@ func runPromGauge(c *core.Ctx) {
 		e := entry(fn, msgType)
 		good := false
 		detail := "no Inc for " + msgType
-		for _, call := range gaugeCalls(fn, "Inc") {
-			if assertedType(fn, call.Block(), "p:"+fn.Params[2].Name()) != msgType {
-				continue
+		an.Region(fn, nil, func(o an.Occ) {
+			call, isCall := o.In.(*ssa.Call)
+			if !isCall || !isGaugeCall(call, "Inc") {
+				return
 			}
+			if assertedType(fn, o.Block(), "p:"+fn.Params[2].Name()) != msgType {
+				return
+			}
+			host := call.Parent()
 			// same block: map insert of the entry; guard: entry absent
 			ins := false
 			for _, in := range call.Block().Instrs {
-				if mu, ok := in.(*ssa.MapUpdate); ok && promPath(mu.Map)+"["+promPath(mu.Key)+"]" == e {
+				if mu, ok := in.(*ssa.MapUpdate); ok && promNorm(o.Path(mu.Map))+"["+promNorm(o.Path(mu.Key))+"]" == e {
 					ins = true
 				}
 			}
 			absent := false
-			for _, g := range an.Guards(fn, call.Block()) {
-				if promPath(g.V) == "ok("+e+")" && !g.True {
+			for _, g := range an.Guards(host, call.Block()) {
+				if promNorm(o.Path(g.V)) == "ok("+e+")" && !g.True {
 					absent = true
 				}
 			}
 			good = ins && absent
 			detail = fmt.Sprintf("Inc with insert of the entry in the same block: %v, only when the entry was absent: %v", ins, absent)
-		}
+		})
 		c.Check(good, nil, fname(c, fn), "inc["+msgType+"]", P.Pos(fn.Pos()), "REQ of a not-yet-open subscription id: entry inserted and gauge incremented together", "subscription gauge increment is not tied to the insertion of a new (session, subscription) entry: "+detail+" — a repeated REQ of the same id counts twice")
 	}
 	checkDec := func(fn *ssa.Function, msgType string) {
